@@ -687,6 +687,13 @@ fn random_history(rng: &mut Rng, max_dim: u64, bad_rate: u64) -> String {
         1 => (w, 0),
         _ => (w, h),
     };
+    // one history in twenty works on a LONG buffer (a dimension of 64..400, the other one small): block sizes,
+    // narrow counters and chunked fast paths of the bulk operations show only beyond a few dozen elements
+    let (w, h) = match rng.below(40) {
+        0 => (64 + rng.below(337) as u32, 1 + rng.below(4) as u32),
+        1 => (1 + rng.below(4) as u32, 64 + rng.below(337) as u32),
+        _ => (w, h),
+    };
     let mut line;
     let mut rw = true;
     let kind = rng.below(10);
